@@ -252,7 +252,7 @@ def _tables(hs):
                4: lambda: pytz.timezone('America/Los_Angeles').localize(datetime.datetime(2020, 2, 28, 17, 2, 3)),
                # the instant of 3 shown in UTC
                5: lambda: utc.localize(datetime.datetime(2020, 7, 1, 10, 0, 0))},
-        'list': {1: lambda: [1], 2: lambda: []},
+        'list': {1: lambda: [1], 2: lambda: [], 3: lambda: [Q(1.0, 'm')], 4: lambda: [Q(1.0, 's')]},
         'dict': {1: lambda: {'a': 1}},
     }
 
@@ -294,7 +294,11 @@ class GridBinding(object):
             self.codes[k] = self.fresh
         return self.codes[k]
 
+    NONFINITE = {1: float('inf'), 2: float('-inf'), 3: float('nan')}
+
     def num(self, c):
+        if c['k'] == 'num' and c['s'] in self.NONFINITE:       # s codes 1..3 of a number: +INF, -INF, NaN
+            return self.NONFINITE[c['s']]
         return int(c['mu'] // 1000000) if c['i'] else c['mu'] / 1e6
 
     def cell(self, c):
@@ -333,8 +337,11 @@ class GridBinding(object):
         if k == 'bool':
             c['mu'] = 1000000 if v else 0
         elif k == 'num':
-            c['mu'] = self.micro(v)
-            c['i'] = 1 if type(v) is int else 0
+            if type(v) is float and (v != v or v in (float('inf'), float('-inf'))):
+                c['s'] = 3 if v != v else 1 if v > 0 else 2
+            else:
+                c['mu'] = self.micro(v)
+                c['i'] = 1 if type(v) is int else 0
         elif k == 'qty':
             c['mu'] = self.micro(v.value)
             c['i'] = 1 if type(v.value) is int else 0
